@@ -18,7 +18,10 @@ Fixpoint observed_set (mut : list bool) (i : nat) : list nat :=
 Definition subset (a b : list nat) : bool := forallb (fun x => mem x b) a.
 
 (* position codes: 0 = an argument outside the footprint was modified, 1 = not deterministic,
-   2 = concurrent results differ / shared input modified, 3 = in-place operation changed nothing *)
+   2 = concurrent results differ / shared input modified, 3 = in-place operation changed nothing,
+   4 = (pseudo-routine 30) an exported function or method taking a slice, Sample, graph or
+   distribution is exercised by no entry of the harness table.  Tags: 1 read-only routine,
+   2 in-place routine, 4 API-surface case. *)
 Definition check_C20 (line : list Z) : list Z :=
   match p_line line with
   | None => verdict V_MALFORMED 0 (-1) []
@@ -29,8 +32,9 @@ Definition check_C20 (line : list Z) : list Z :=
           if negb (Nat.eqb (length mut) (r_nargs r)) then verdict V_MALFORMED 0 (-1) [rid] else
           let fp := footprint r in
           let obs := observed_set mut 0 in
-          let tag := if readonly (r_prog r) then 1%Z else 2%Z in
-          if negb (subset obs fp) then verdict V_MISMATCH tag 0 (idx :: map Z.of_nat obs)
+          let tag := if (rid =? 30)%Z then 4%Z else if readonly (r_prog r) then 1%Z else 2%Z in
+          if (rid =? 30)%Z && negb det then verdict V_MISMATCH tag 4 [idx]
+          else if negb (subset obs fp) then verdict V_MISMATCH tag 0 (idx :: map Z.of_nat obs)
           else if negb det then verdict V_MISMATCH tag 1 [idx]
           else if negb conc then verdict V_MISMATCH tag 2 [idx]
           else if negb (readonly (r_prog r)) && (match obs with [] => true | _ => false end)
